@@ -265,6 +265,10 @@ class Trimesh(Geometry3D):
                 # get a mask with only unique and non-degenerate faces
                 mask = self.unique_faces() & self.nondegenerate_faces()
                 self.update_faces(mask)
+                # the cache is locked so values computed for the faces
+                # we just removed would not be cleared: drop everything
+                # except the normals which `update_faces` re-indexed
+                self._cache.clear(exclude={"face_normals", "vertex_normals"})
                 self.fix_normals()
 
             # since none of our process operations moved vertices or faces
